@@ -25,7 +25,7 @@ RULE = ("Also 2-4 requests in flight together on one static app object, request 
         "decorator and middleware stacks around recipes. Routing: Router tables (all convertors), nested Subpaths tables, Hosts tables with echoing leaves x generated "
         "paths/hosts. Static: Files and Pages over a sandbox tree x paths x conditional / range headers. Non-trivial = pair in which both sides produced an observation for "
         "a case that is not a bare GET /; distinct = (family, case).")
-RULE += ' Also: forms with exactly 323 / 324 / 325 parts, message cuts inside multi-byte characters, bytearray / memoryview content, client addresses (absent, IPv4, IPv6), one response object answering 2-3 requests on each interface (later answers compared as well), SSE producers slower than the ping interval (pings stripped before comparison).'
+RULE += ' Also: forms with exactly 323 / 324 / 325 parts, message cuts inside multi-byte characters, bytearray / memoryview content, client addresses (absent, IPv4, IPv6), one response object answering 2-3 requests on each interface (later answers compared as well), SSE producers slower than the ping interval (pings stripped before comparison). A context variable set by the view and read by the producer of its streaming / event-stream response; one JSON response object per interface answering twice with its content changed in place in between.'
 ASSUMPTIONS = [
     "request header names are unique and contain no underscore (WSGI cannot distinguish '_' from '-'); header values are Latin-1 without CR/LF/NUL",
     "paths are valid UTF-8 (an ASGI server decodes the path before baize sees it, a WSGI server passes the Latin-1 view of the bytes)",
@@ -453,6 +453,66 @@ def check_reused(ctx, rec, reqs):
             compare(ctx, "response-recipe", {"recipe": rec, "requests_to_one_object": reqs[:n + 1]}, w, a)
 
 
+_REQUEST_ID = __import__("contextvars").ContextVar("vf_request_id", default="no-request")
+
+
+def check_context_of_producers(ctx, rng):
+    """a view notes something about its request in a context variable (request id, language, tenant) and returns a streaming /
+    event-stream response whose producer reads it: the producer sees the view's value on both interfaces"""
+    from baize import asgi, wsgi
+    rid = "req-%d" % rng.randrange(10 ** 6)
+    kind = rng.choice(["stream", "sse"])
+    obs = {}
+    for iface, ns in (("wsgi", wsgi), ("asgi", asgi)):
+        if iface == "wsgi":
+            def producer():
+                for i in range(2):
+                    v = f"{i}:{_REQUEST_ID.get()};"
+                    yield v.encode() if kind == "stream" else {"data": v}
+
+            @ns.request_response
+            def view(request):
+                _REQUEST_ID.set(rid)
+                return ns.StreamResponse(producer()) if kind == "stream" else ns.SendEventResponse(producer(), ping_interval=30)
+        else:
+            async def producer():
+                for i in range(2):
+                    v = f"{i}:{_REQUEST_ID.get()};"
+                    yield v.encode() if kind == "stream" else {"data": v}
+
+            @ns.request_response
+            async def view(request):
+                _REQUEST_ID.set(rid)
+                return ns.StreamResponse(producer()) if kind == "stream" else ns.SendEventResponse(producer(), ping_interval=30)
+        tok = _REQUEST_ID.set("outside-any-request")
+        try:
+            obs[iface] = observe(iface, view, drivers.Req())
+        finally:
+            _REQUEST_ID.reset(tok)
+    case = {"producer_reads_a_context_variable_set_by_its_view": kind, "value": rid}
+    compare(ctx, "context-of-producer", case, obs["wsgi"], obs["asgi"], sse=kind == "sse")
+    for iface in ("wsgi", "asgi"):
+        if obs[iface][0] == "resp" and rid.encode() not in obs[iface][3]:
+            ctx.violation(f"context-of-producer|value-set-by-the-view-not-seen|{iface}", case, str(obs[iface])[:300])
+    return case
+
+
+def check_content_changed_in_place(ctx, rng):
+    """one JSON response object per interface answers twice; between the two requests the application changes the content object in
+    place (a status document that is kept up to date): the second answers agree"""
+    from baize import asgi, wsgi
+    doc = {"n": 1, "items": [1]}
+    objs = {"wsgi": wsgi.JSONResponse(doc), "asgi": asgi.JSONResponse(doc)}
+    case = {"json_response_object_answers_twice": True, "content_changed_in_place_between": True}
+    for n in (1, 2):
+        w, a = observe("wsgi", objs["wsgi"], drivers.Req()), observe("asgi", objs["asgi"], drivers.Req())
+        # content-length belongs to the body: both must describe what is sent now
+        compare(ctx, "reused-json-object", dict(case, use=n), w, a)
+        doc["n"] += rng.randrange(1, 10 ** 6)
+        doc["items"].append(n)
+    return case
+
+
 def run(ctx):
     from baize import asgi, wsgi
     contracts.arm_list_headers()
@@ -491,6 +551,11 @@ def run(ctx):
             check_reused(ctx, rec, reqs)
         ctx.case(repr((rec, method, hdrs, wrapper)))
         ctx.sample("recipe-" + wrapper, {"recipe": rec, "method": method, "headers": hdrs}, cap=1)
+    for i in range(ctx.scale(20, 1500)):
+        case = check_context_of_producers(ctx, rng)
+        ctx.case(repr(case))
+        case = check_content_changed_in_place(ctx, rng)
+        ctx.case((repr(case), i))
     # ---- routing
     for i in range(ctx.scale(300, 30_000)):
         check_router(ctx, rng)
@@ -525,6 +590,12 @@ def run(ctx):
 
 
 def replay(ctx, case):
+    if "producer_reads_a_context_variable_set_by_its_view" in case or "json_response_object_answers_twice" in case:
+        rng = ctx.rng("c04-replay")
+        for _ in range(20):
+            check_context_of_producers(ctx, rng) if "value" in case else check_content_changed_in_place(ctx, rng)
+        ctx.case(1)
+        return
     contracts.arm_list_headers()
     if "access_order" in case:
         rq = {k: case[k] for k in ("method", "path", "root", "query", "headers", "chunks", "scheme", "server")}
